@@ -147,6 +147,10 @@ fn normalise(mut line: Value, index: usize) -> Value {
 }
 
 fn origin(line: &Value) -> String {
+    // a replayed case keeps the origin label of the case it was taken from
+    if let Some(o) = line.get("origin").and_then(|o| o.as_str()) {
+        return o.to_string();
+    }
     let s = &line["src"];
     match s["k"].as_str().unwrap_or("") {
         "geom" => format!(
@@ -303,36 +307,6 @@ fn main() {
             args.get(6).and_then(|s| s.parse().ok()).unwrap_or(usize::MAX),
         ),
         Some("show") => cmd_show(&args[2]),
-        Some("bench") => {
-            // micro-benchmark of the per-case fixed costs (development aid)
-            let n: usize = args[2].parse().unwrap();
-            let t0 = std::time::Instant::now();
-            for _ in 0..n {
-                let db = cairo_lang_parser::utils::SimpleParserDatabase::default();
-                std::hint::black_box(&db);
-            }
-            println!("db create: {:?}/case", t0.elapsed() / n as u32);
-            let text = "fn wrap() {\n    let r = fcall(aa, bbb, cc);\n}\n";
-            let cfg = json!({"tab": 4, "ml": 100});
-            let t0 = std::time::Instant::now();
-            for _ in 0..n {
-                std::hint::black_box(run_case(text, &cfg));
-            }
-            println!("run_case: {:?}/case", t0.elapsed() / n as u32);
-            for threads in [1usize, 4, 8, 16] {
-                let t0 = std::time::Instant::now();
-                std::thread::scope(|s| {
-                    for _ in 0..threads {
-                        s.spawn(|| {
-                            for _ in 0..n {
-                                std::hint::black_box(run_case(text, &cfg));
-                            }
-                        });
-                    }
-                });
-                println!("{threads} threads: {:.0} cases/s", (threads * n) as f64 / t0.elapsed().as_secs_f64());
-            }
-        }
         _ => {
             eprintln!("usage: fmt_check corpus|run|show ...");
             std::process::exit(2);
